@@ -128,4 +128,38 @@ def memoRun {α : Type} (inherited : Bool) (parent : Nat → Option Nat) (fuel :
     (memoGet inherited parent fuel build memo c).1
       :: memoRun inherited parent fuel build (memoGet inherited parent fuel build memo c).2 cs
 
+/-! ## default factories and instances: mutable products live on a heap, by identity
+
+`DataclassNode._setup_node` calls the default factory of every input still at `NOT_DATA` for EVERY instance it
+sets up.  A variant that evaluated the factories once per node class would hand the same objects to every
+instance. -/
+
+/-- mutable objects by identity: the content of each, and the next free identity -/
+structure Heap where
+  next : Nat
+  cell : Nat → Option (List Val)
+
+/-- a factory call: a new object with the product's content under a fresh identity -/
+def Heap.alloc (h : Heap) (c : List Val) : Nat × Heap :=
+  (h.next, { next := h.next + 1, cell := fun i => if i = h.next then some c else h.cell i })
+
+/-- somebody appends to the object `i` (through a node's input value, through the built dataclass …) -/
+def Heap.mutate (h : Heap) (i : Nat) (v : Val) : Heap :=
+  { h with cell := fun j => if j = i then (h.cell j).map (· ++ [v]) else h.cell j }
+
+/-- setting up one instance: one factory call per factory field (`facs` = what each factory produces) -/
+def newInst : Heap → List (List Val) → List Nat × Heap
+  | h, [] => ([], h)
+  | h, c :: cs =>
+    let r := h.alloc c
+    let rest := newInst r.2 cs
+    (r.1 :: rest.1, rest.2)
+
+/-- the variant with the products cached on the class: made for the first instance, reused afterwards -/
+def newInstCached (cache : Option (List Nat)) (h : Heap) (facs : List (List Val)) :
+    List Nat × Heap × Option (List Nat) :=
+  match cache with
+  | some ids => (ids, h, cache)
+  | none => ((newInst h facs).1, (newInst h facs).2, some (newInst h facs).1)
+
 end PwVerif.DcMro
